@@ -19,6 +19,7 @@ See DESIGN.md section 4 / C14.
 from vf.monitors import _c14_defs as defs
 from vf.monitors import _c14_objs as objs
 from vf.monitors import _c14_min as minfam
+from vf.monitors import _c14_more as more
 
 META = {
     "level": "exploration",
@@ -38,7 +39,13 @@ META = {
              "trait has an awkward but legal NAME (ending in _items, equal to 'items' / '_items', leading or "
              "trailing underscore, trait_* like the API, `xs` and `xs_items` both declared) x value type "
              "(List(Int) / Int) x listener flavour (none, declared observe / on_trait_change / depends_on / "
-             "Property(observe), dynamic observe / on_trait_change).  B: cases = (definition kind, round-trip mode) "
+             "Property(observe), dynamic observe / on_trait_change).  "
+             "Lazy family: a class whose _x_default methods depend on transient traits, a counter and uuid4, "
+             "with a random subset of them never read before the copy (alone and nested in a parent); values "
+             "are read on both sides after the round trip.  Graph family: trees of 1-8 nested nodes "
+             "(siblings, chains, mixed) carrying list/dict values in Any and Dict(Str, Any) traits, every copy "
+             "mode incl. clone_traits(traits='all'); independence at every depth, then the copy is mutated "
+             "everywhere and the original must not change.  B: cases = (definition kind, round-trip mode) "
              "with kinds = c01's atomic catalogue + properties (plain/validated/cached/observed, every "
              "getter/setter/validator arity), delegates, events, constants, policies, compounds, mapped, "
              "containers, instances by class/name, adapters, misc; modes = pickle 0/2/5, deepcopy, copy; "
@@ -57,6 +64,9 @@ META = {
                   "readonly_checked": 1300, "container_copies": 1600, "ref_identity_checked": 200,
                   "deferral_checked": 3500, "min_states": 300, "min_copies": 3000, "min_copies_live": 3000,
                   "min_notify_probes": 2000, "min_checks": 3000, "min_name_classes": 45, "min_name_states": 180,
+                  "lazy_states": 30, "lazy_copies": 400, "lazy_unread_compared": 2500,
+                  "graph_states": 50, "graph_states_3plus_nodes": 35, "graph_copies": 600,
+                  "graph_deep_independence_checked_3plus": 280, "graph_nodes_compared": 2300,
                   "def_kinds": 120, "def_roundtrips": 600, "def_roundtrips_sanitized": 300,
                   "def_validate_comparisons": 120000, "def_install_steps": 80000},
         "thorough": {"evaluations": 10000000, "states": 12000, "copies": 80000, "batteries_completed": 80000,
@@ -68,6 +78,9 @@ META = {
                      "deferral_checked": 80000, "min_states": 5000, "min_copies": 50000,
                      "min_copies_live": 50000, "min_notify_probes": 33000, "min_checks": 60000,
                      "min_name_classes": 45, "min_name_states": 2800,
+                     "lazy_states": 800, "lazy_copies": 11000, "lazy_unread_compared": 65000,
+                     "graph_states": 1300, "graph_states_3plus_nodes": 900, "graph_copies": 16000,
+                     "graph_deep_independence_checked_3plus": 7000, "graph_nodes_compared": 60000,
                      "def_kinds": 120, "def_roundtrips": 600, "def_roundtrips_sanitized": 300,
                      "def_validate_comparisons": 120000, "def_install_steps": 80000},
     },
@@ -91,5 +104,6 @@ def run(ctx):
         defs.run_defs(ctx)
         return
     minfam.run_min(ctx)
+    more.run_more(ctx)
     objs.run_objects(ctx)
     defs.run_defs(ctx, shard_offset=5)
